@@ -128,7 +128,7 @@ Spec == Init /\ [][Next]_vars
 
 \* ------------------------------------------------------------------ properties (C01)
 Agreement ==
-  \A a, b \in Corr : rs[a].decision # Nil /\ rs[b].decision # Nil => rs[a].decision = rs[b].decision
+  \A a, b \in Corr : rs[a].decision # Nil /\ rs[b].decision # Nil => SameBlock(rs[a].decision, rs[b].decision)
 DecisionValid == \A a \in Corr : rs[a].decision # Nil => Valid(rs[a].decision)
 NoPanic == \A a \in Corr : rs[a].panic = "none"
 \* a decision is backed by precommits for exactly that block, in one round, from > 2/3 of the power:
